@@ -36,7 +36,7 @@ def main():
     if sys.argv[1] == '--replay':
         w = json.loads(sys.argv[2])
         exe = build()
-        p = subprocess.run([exe, 'replay', w['family'], w['input']], capture_output=True, text=True, timeout=600)
+        p = subprocess.run([exe, 'replay', w['family'], w['input']], capture_output=True, text=True, timeout=240)
         print(p.stdout.strip())
         sys.exit(p.returncode)
     prop = sys.argv[1]
@@ -45,7 +45,7 @@ def main():
         print(json.dumps({'input': None, 'note': 'no witness family for this property'}))
         return
     exe = build()
-    p = subprocess.run([exe, 'search'] + fams, capture_output=True, text=True, timeout=600)
+    p = subprocess.run([exe, 'search'] + fams, capture_output=True, text=True, timeout=240)
     line = p.stdout.strip().split('\n')[-1] if p.stdout.strip() else '{}'
     d = json.loads(line)
     d['families'] = fams
